@@ -18,6 +18,7 @@ from .. import matching
 from ..core import Ctx, Taps
 from ..gen import dataset as D
 from ..gen import objects as O
+from ..oracles import geometry as G
 from ..scenario import Run, gen_scenario
 
 LEVEL_TEXT = (
@@ -37,7 +38,7 @@ RULE = (
     "policy, #flips class, n class)"
 )
 ASSUMPTIONS = ["ordinary (non false-positive-labelled) ground truth only", "thresholds compared per label with the same chain for all labels"]
-DECIDING = ["C08.chains_2d", "C08.chains", "C08.chains_with_flip", "C08.result_implications_checked", "C08.count_pairs_checked", "C08.ap_pairs_checked", "C08.map_pairs_checked", "C08.manager_chains"]
+DECIDING = ["C08.chains_2d", "C08.duplicate_annotation_chains", "C08.chains", "C08.chains_with_flip", "C08.result_implications_checked", "C08.count_pairs_checked", "C08.ap_pairs_checked", "C08.map_pairs_checked", "C08.manager_chains"]
 JOBS = {"quick": 4, "thorough": 14}
 
 LABELS = [AutowareLabel(v) for v in O.ORDINARY]
@@ -192,6 +193,30 @@ def run(ctx: Ctx) -> None:
                         ctx.count("C08.chains_with_flip")
                     ctx.case(("results_grid", str(mode), c["case"]["policy"], min(flips, 3)), nontrivial=flips > 0)
 
+        # ---- a doubly annotated object (two ground truths equal in pose and label, own uuids) detected twice
+        for idx in ctx.indices("duplicate_annotations", 40 if ctx.quick else 4000):
+            r = ctx.rng("duplicate_annotations", idx)
+            x, y, yaw = r.uniform(-30, 30), r.uniform(-30, 30), O.rand_yaw(r)
+            g1 = O.obj3d(x, y, 0.0, yaw, 1.9, 4.5, 1.6, "car", uuid="ann-a")
+            g2 = O.obj3d(x, y, 0.0, yaw, 1.9, 4.5, 1.6, "car", uuid="ann-b")
+            g2.state.position, g2.state.orientation = g1.state.position, g1.state.orientation
+            near, far = r.uniform(0.1, 0.6), r.uniform(1.2, 1.9)
+            hi, lo = round(r.uniform(0.6, 0.95), 3), round(r.uniform(0.1, 0.5), 3)
+            ang = r.uniform(-math.pi, math.pi)
+            e_far = O.obj3d(x + far * math.cos(ang), y + far * math.sin(ang), 0.0, G.wrap_pi(yaw + r.uniform(1.0, 2.0)), 1.9, 4.5, 1.6, "car", score=hi, uuid="det-far")
+            e_near = O.obj3d(x - near * math.cos(ang), y - near * math.sin(ang), 0.0, G.wrap_pi(yaw + r.uniform(-0.1, 0.1)), 1.9, 4.5, 1.6, "car", score=lo, uuid="det-near")
+            others = [O.obj3d(x + 20 + 8 * k, y, 0.0, 0.0, 1.9, 4.5, 1.6, "car", uuid=f"o{k}") for k in range(r.randint(0, 2))]
+            gts = [g1, g2] + others
+            ests = [e_far, e_near] + [O.obj3d(o.state.position[0] + 0.3, o.state.position[1], 0.0, 0.0, 1.9, 4.5, 1.6, "car", score=round(r.uniform(0.2, 0.9), 3), uuid=f"d{k}") for k, o in enumerate(others)]
+            r.shuffle(ests)
+            ctx.begin_case("duplicate_annotations", idx, near=near, far=far)
+            with ctx.case_guard("duplicate_annotations"):
+                results = mgr_mod.get_object_results(evaluation_task=EvaluationTask.DETECTION, estimated_objects=ests, ground_truth_objects=gts, target_labels=LABELS)
+                chain = sorted({round(near + 0.05, 3), round((near + far) / 2, 3), round(far + 0.05, 3), 3.0})
+                info = dict(mode=str(MatchingMode.CENTERDISTANCE), policy="DEFAULT", n_results=len(results), n_gt=len(gts), chain=chain, duplicate_annotation=True)
+                flips = chain_on_results(ctx, results, gts, MatchingMode.CENTERDISTANCE, chain, info)
+                ctx.count("C08.duplicate_annotation_chains")
+                ctx.case(("duplicate_annotations", min(flips, 3)), nontrivial=flips > 0)
         # ---- 2D results (image ROIs) judged under every mode, also the two that have no score for 2D objects (plane
         # distance, 3D IoU: the judgement then rests on the labels alone and cannot get worse when loosened)
         for idx in ctx.indices("results_2d", 80 if ctx.quick else 8000):
